@@ -1,3 +1,5 @@
+import Mathlib.Tactic.Ring
+import Mathlib.Tactic.Positivity
 import Pdpy11.Model.Pattern
 import Pdpy11.Spec.Isa
 /-
@@ -99,5 +101,489 @@ def pairwiseDisjoint : List (Nat × Nat) → Bool
   | a :: rest => rest.all (fun b => ((a.1 ^^^ b.1) &&& a.2 &&& b.2) != 0) && pairwiseDisjoint rest
 
 theorem canon_disjoint : pairwiseDisjoint fixedParts = true := by decide +kernel
+
+/-! ## second part: `get_opcode` is arithmetic, for all operand values -/
+
+/-! ### binary digit lists -/
+
+def bitOf (c : Char) : Nat := if c = '1' then 1 else 0
+def isBin (c : Char) : Bool := c == '0' || c == '1'
+
+/-- value of a template in which every symbol other than `1` counts as 0 -/
+def digitsVal (l : List Char) : Nat := l.foldl (fun acc c => 2 * acc + bitOf c) 0
+
+theorem foldl_digits_acc (l : List Char) (a : Nat) :
+    l.foldl (fun acc c => 2 * acc + bitOf c) a = a * 2 ^ l.length + digitsVal l := by
+  induction l generalizing a with
+  | nil => simp [digitsVal]
+  | cons c t ih =>
+    simp only [List.foldl_cons, List.length_cons, digitsVal]
+    rw [ih, ih (2 * 0 + bitOf c)]
+    rw [Nat.pow_succ]
+    ring
+
+theorem digitsVal_cons (c : Char) (t : List Char) : digitsVal (c :: t) = bitOf c * 2 ^ t.length + digitsVal t := by
+  have := foldl_digits_acc t (2 * 0 + bitOf c)
+  simp only [digitsVal, List.foldl_cons] at *
+  rw [this]
+  simp
+
+theorem binValue_foldlM (l : List Char) (h : l.all isBin = true) (a : Nat) :
+    l.foldlM (fun acc c => if c = '0' then some (2 * acc) else if c = '1' then some (2 * acc + 1) else none) a
+      = some (l.foldl (fun acc c => 2 * acc + bitOf c) a) := by
+  induction l generalizing a with
+  | nil => rfl
+  | cons c t ih =>
+    simp only [List.all_cons, Bool.and_eq_true] at h
+    simp only [List.foldlM_cons, List.foldl_cons]
+    have hc : c = '0' ∨ c = '1' := by simpa [isBin] using h.1
+    rcases hc with hc | hc
+    · subst hc; simp [bitOf, ih h.2]
+    · subst hc; simp [bitOf, ih h.2]
+
+/-- a template of binary digits reads, in base 2, as `digitsVal` -/
+theorem binValue_of_bin (l : List Char) (h : l.all isBin = true) : binValue l = some (digitsVal l) := by
+  cases l with
+  | nil => rfl
+  | cons c t => unfold binValue; exact binValue_foldlM (c :: t) h 0
+
+theorem digitsVal_set (l : List Char) (j : Nat) (c : Char) (hj : j < l.length) (h0 : ∀ x, l[j]? = some x → bitOf x = 0) :
+    digitsVal (l.set j c) = digitsVal l + bitOf c * 2 ^ (l.length - 1 - j) := by
+  induction l generalizing j with
+  | nil => simp at hj
+  | cons c0 t ih =>
+    cases j with
+    | zero =>
+      have : bitOf c0 = 0 := h0 c0 (by simp)
+      simp [List.set, digitsVal_cons, this]
+      omega
+    | succ j =>
+      simp only [List.set_cons_succ, digitsVal_cons, List.length_set, List.length_cons]
+      have hj' : j < t.length := by simpa using hj
+      rw [ih j hj' (fun x hx => h0 x (by simpa using hx))]
+      have : t.length + 1 - 1 - (j + 1) = t.length - 1 - j := by omega
+      rw [this]
+      omega
+
+/-- contribution of a list of writes to the value of a template of length `n` -/
+def writesVal (n : Nat) (ws : List (Nat × Char)) : Nat := (ws.map (fun w => bitOf w.2 * 2 ^ (n - 1 - w.1))).sum
+
+theorem applyWrites_length (p : List Char) (ws : List (Nat × Char)) : (applyWrites p ws).length = p.length := by
+  induction ws generalizing p with
+  | nil => rfl
+  | cons w ws ih => simp [applyWrites, List.foldl_cons] at *; rw [ih]; simp
+
+/-- writes at pairwise distinct positions that hold no `1` add their bits to the value -/
+theorem digitsVal_applyWrites (p : List Char) (ws : List (Nat × Char)) (hnd : (ws.map Prod.fst).Nodup)
+    (hlt : ∀ w ∈ ws, w.1 < p.length) (h0 : ∀ w ∈ ws, ∀ x, p[w.1]? = some x → bitOf x = 0) :
+    digitsVal (applyWrites p ws) = digitsVal p + writesVal p.length ws := by
+  induction ws generalizing p with
+  | nil => simp [applyWrites, writesVal]
+  | cons w ws ih =>
+    simp only [List.map_cons, List.nodup_cons] at hnd
+    have hw := hlt w (by simp)
+    have step := digitsVal_set p w.1 w.2 hw (h0 w (by simp))
+    have : applyWrites p (w :: ws) = applyWrites (p.set w.1 w.2) ws := by simp [applyWrites]
+    rw [this, ih (p.set w.1 w.2) hnd.2]
+    · rw [step]; simp [writesVal]; omega
+    · intro w' hw'; simpa using hlt w' (by simp [hw'])
+    · intro w' hw' x hx
+      have hne : w.1 ≠ w'.1 := by
+        intro heq
+        exact hnd.1 (by rw [heq]; exact List.mem_map_of_mem (f := Prod.fst) hw')
+      rw [List.getElem?_set_ne hne] at hx
+      exact h0 w' (by simp [hw']) x hx
+
+/-- after the writes every symbol is a binary digit, provided every non-digit position is written -/
+theorem all_bin_applyWrites (p : List Char) (ws : List (Nat × Char)) (hb : ∀ w ∈ ws, isBin w.2 = true)
+    (hcov : ∀ j x, p[j]? = some x → isBin x = true ∨ j ∈ ws.map Prod.fst) :
+    (applyWrites p ws).all isBin = true := by
+  induction ws generalizing p with
+  | nil =>
+    simp only [applyWrites, List.foldl_nil, List.all_eq_true]
+    intro x hx
+    obtain ⟨j, hj, rfl⟩ := List.getElem_of_mem hx
+    rcases hcov j p[j] (by simp [hj]) with h | h
+    · exact h
+    · simp at h
+  | cons w ws ih =>
+    have : applyWrites p (w :: ws) = applyWrites (p.set w.1 w.2) ws := by simp [applyWrites]
+    rw [this]
+    apply ih
+    · intro w' hw'; exact hb w' (by simp [hw'])
+    · intro j x hx
+      by_cases hj : w.1 = j
+      · subst hj
+        by_cases hlen : w.1 < p.length
+        · rw [List.getElem?_set_self hlen] at hx
+          left; rw [← Option.some.inj hx]; exact hb w (by simp)
+        · rw [List.getElem?_eq_none (by simp; omega)] at hx; cases hx
+      · rw [List.getElem?_set_ne hj] at hx
+        rcases hcov j x hx with h | h
+        · left; exact h
+        · right
+          simp only [List.map_cons, List.mem_cons] at h
+          rcases h with h | h
+          · exact absurd h.symm hj
+          · exact h
+
+/-! ### the bits of an operand value -/
+
+def bitNat (v : Int) (i : Nat) : Nat := bitOf (bitChar v i)
+
+theorem bitNat_cast (v : Int) (i : Nat) : ((bitNat v i : Nat) : Int) = (v >>> i) % 2 := by
+  unfold bitNat bitChar
+  have h : (v >>> i) % 2 = 0 ∨ (v >>> i) % 2 = 1 := by omega
+  rcases h with h | h <;> simp [h, bitOf]
+
+/-- the low `w` bits of `v`, bit by bit as `get_opcode` writes them -/
+def lowBits (v : Int) : Nat → Nat
+  | 0 => 0
+  | w + 1 => lowBits v w + bitNat v w * 2 ^ w
+
+theorem emod_two_pow_succ (v : Int) (w : Nat) :
+    v % (2 ^ (w + 1) : Int) = v % (2 ^ w : Int) + (v / (2 ^ w : Int) % 2) * (2 ^ w : Int) := by
+  have hP : (0 : Int) < 2 ^ w := by positivity
+  generalize hPdef : (2 ^ w : Int) = P at *
+  have h1 : P * (v / P) + v % P = v := Int.mul_ediv_add_emod v P
+  have h2 : 2 * (v / P / 2) + v / P % 2 = v / P := Int.mul_ediv_add_emod (v / P) 2
+  have hr0 : 0 ≤ v % P := Int.emod_nonneg v (by omega)
+  have hr1 : v % P < P := Int.emod_lt_of_pos v hP
+  have hb : v / P % 2 = 0 ∨ v / P % 2 = 1 := by omega
+  have hpow : (2 : Int) ^ (w + 1) = P * 2 := by rw [pow_succ, hPdef]
+  rw [hpow]
+  have key : (v / (P * 2) = v / P / 2 ∧ v % (P * 2) = v % P + (v / P % 2) * P) := by
+    rw [Int.ediv_emod_unique (by omega)]
+    refine ⟨?_, ?_, ?_⟩
+    · have : v % P + v / P % 2 * P + P * 2 * (v / P / 2) = P * (2 * (v / P / 2) + v / P % 2) + v % P := by ring
+      rw [this, h2, h1]
+    · rcases hb with hb | hb <;> rw [hb] <;> omega
+    · rcases hb with hb | hb <;> rw [hb] <;> omega
+  exact key.2
+
+theorem lowBits_cast (v : Int) (w : Nat) : ((lowBits v w : Nat) : Int) = v % (2 ^ w : Int) := by
+  induction w with
+  | zero => simp [lowBits, Int.emod_one]
+  | succ w ih =>
+    rw [emod_two_pow_succ, ← ih]
+    simp only [lowBits, Nat.cast_add, Nat.cast_mul, Nat.cast_pow, Nat.cast_ofNat]
+    rw [bitNat_cast, Int.shiftRight_eq_div_pow]
+    simp
+
+/-- `lowBits v w` is `v mod 2^w` (two's complement for negative `v`) -/
+theorem lowBits_eq (v : Int) (w : Nat) : lowBits v w = (v % (2 ^ w : Int)).toNat := by
+  have := lowBits_cast v w
+  omega
+
+/-! ### where `get_opcode` writes: positions do not depend on the values -/
+
+def stubPositions (p : List Char) (s : StubG) : Option (List (Nat × Nat)) :=
+  (s.bits.zipIdx).mapM (fun x => ((indexesOfChar p s.ch)[x.1]?).map (fun pos => (pos, x.2)))
+
+theorem mapM_map_post {α β γ δ : Type} (f : α → Option β) (g : α → β → γ) (g' : α → β → δ) (h : δ → γ)
+    (hg : ∀ a b, g a b = h (g' a b)) (L : List α) :
+    L.mapM (fun a => (f a).map (g a)) = (L.mapM (fun a => (f a).map (g' a))).map (List.map h) := by
+  induction L with
+  | nil => simp
+  | cons a t ih =>
+    simp only [List.mapM_cons]
+    cases hf : f a with
+    | none => simp
+    | some b =>
+      rw [ih]
+      cases List.mapM (fun a => Option.map (g' a) (f a)) t with
+      | none => simp
+      | some r => simp [hg]
+
+theorem stubWrites_eq (p : List Char) (s : StubG) (v : Int) :
+    stubWrites p s v = (stubPositions p s).map (List.map (fun q => (q.1, bitChar v q.2))) := by
+  unfold stubWrites stubPositions
+  exact mapM_map_post (fun (x : Nat × Nat) => (indexesOfChar p s.ch)[x.1]?) (fun (x : Nat × Nat) pos => (pos, bitChar v x.2))
+    (fun (x : Nat × Nat) pos => (pos, x.2)) (fun (q : Nat × Nat) => (q.1, bitChar v q.2)) (fun _ _ => rfl) _
+
+def charge (v : Int) (w : List (Nat × Nat)) : List (Nat × Char) := w.map (fun q => (q.1, bitChar v q.2))
+
+def chargeAll : List (List (Nat × Nat)) → List Int → List (List (Nat × Char))
+  | w :: ws, v :: vs => charge v w :: chargeAll ws vs
+  | _, _ => []
+
+/-- all writes of one instruction: the value-free positions, charged with the bits of the values -/
+theorem writes_of_positions (p : List Char) (stubs : List StubG) (W : List (List (Nat × Nat))) (vs : List Int)
+    (hW : stubs.mapM (stubPositions p) = some W) (hlen : vs.length = stubs.length) :
+    (stubs.zip vs).mapM (fun x => stubWrites p x.1 x.2) = some (chargeAll W vs) := by
+  induction stubs generalizing W vs with
+  | nil =>
+    simp at hW; subst hW
+    cases vs <;> simp [chargeAll]
+  | cons s t ih =>
+    cases vs with
+    | nil => simp at hlen
+    | cons v vs =>
+      simp only [List.mapM_cons] at hW
+      cases hs : stubPositions p s with
+      | none => simp [hs] at hW
+      | some w =>
+        cases ht : t.mapM (stubPositions p) with
+        | none => simp [hs, ht] at hW
+        | some W' =>
+          simp [hs, ht] at hW
+          subst hW
+          have ih' := ih W' vs ht (by simpa using hlen)
+          simp only [List.zip_cons_cons, List.mapM_cons, ih']
+          simp [stubWrites_eq, hs, chargeAll, charge]
+
+theorem chargeAll_positions (W : List (List (Nat × Nat))) (vs : List Int) (hlen : vs.length = W.length) :
+    ((chargeAll W vs).flatten).map Prod.fst = (W.flatten).map Prod.fst := by
+  induction W generalizing vs with
+  | nil => cases vs <;> simp [chargeAll]
+  | cons w W ih =>
+    cases vs with
+    | nil => simp at hlen
+    | cons v vs =>
+      simp only [chargeAll, List.flatten_cons, List.map_append]
+      rw [ih vs (by simpa using hlen)]
+      simp [charge, List.map_map, Function.comp_def]
+
+theorem chargeAll_bin (W : List (List (Nat × Nat))) (vs : List Int) : ∀ w ∈ (chargeAll W vs).flatten, isBin w.2 = true := by
+  induction W generalizing vs with
+  | nil => cases vs <;> simp [chargeAll]
+  | cons w W ih =>
+    cases vs with
+    | nil => simp [chargeAll]
+    | cons v vs =>
+      intro x hx
+      simp only [chargeAll, List.flatten_cons, List.mem_append] at hx
+      rcases hx with hx | hx
+      · simp only [charge, List.mem_map] at hx
+        obtain ⟨q, _, rfl⟩ := hx
+        simp only [bitChar]
+        split <;> rfl
+      · exact ih vs x hx
+
+/-! ### one field -/
+
+def expectedPositions (sl : Slot) : List (Nat × Nat) := (List.range sl.width).map (fun i => (15 - sl.shift - i, i))
+
+theorem writesVal_append (n : Nat) (a b : List (Nat × Char)) : writesVal n (a ++ b) = writesVal n a + writesVal n b := by
+  simp [writesVal]
+
+theorem writesVal_field (v : Int) (shift w : Nat) (h : shift + w ≤ 16) :
+    writesVal 16 (charge v ((List.range w).map (fun i => (15 - shift - i, i)))) = lowBits v w * 2 ^ shift := by
+  induction w with
+  | zero => simp [writesVal, charge, lowBits]
+  | succ w ih =>
+    rw [List.range_succ, List.map_append, charge, List.map_append, writesVal_append]
+    have := ih (by omega)
+    simp only [charge] at this
+    rw [this]
+    simp only [List.map_cons, List.map_nil, writesVal, List.sum_cons, List.sum_nil, lowBits, bitNat]
+    have he : 16 - 1 - (15 - shift - w) = shift + w := by omega
+    rw [he, Nat.pow_add]
+    ring
+
+def fieldSum : List Slot → List Int → Nat
+  | sl :: ss, v :: vs => lowBits v sl.width * 2 ^ sl.shift + fieldSum ss vs
+  | _, _ => 0
+
+theorem writesVal_all (slots : List Slot) (vs : List Int) (hlen : vs.length = slots.length)
+    (hfit : ∀ sl ∈ slots, sl.shift + sl.width ≤ 16) :
+    writesVal 16 (chargeAll (slots.map expectedPositions) vs).flatten = fieldSum slots vs := by
+  induction slots generalizing vs with
+  | nil => cases vs <;> simp [chargeAll, writesVal, fieldSum]
+  | cons sl ss ih =>
+    cases vs with
+    | nil => simp at hlen
+    | cons v vs =>
+      simp only [List.map_cons, chargeAll, List.flatten_cons, writesVal_append, fieldSum]
+      rw [ih vs (by simpa using hlen) (fun s hs => hfit s (by simp [hs]))]
+      rw [expectedPositions, writesVal_field v sl.shift sl.width (hfit sl (by simp))]
+
+/-! ### the value-free wiring of an entry, checked for the whole table -/
+
+def wiringOk (e : InsnG) : Bool :=
+  match e.stubs.mapM (stubPositions e.pattern), layoutOf e with
+  | some W, some (_, slots) =>
+    e.pattern.length == 16 && (W == slots.map expectedPositions) &&
+    slots.all (fun sl => sl.shift + sl.width ≤ 16) &&
+    decide ((W.flatten.map Prod.fst).Nodup) &&
+    (W.flatten.map Prod.fst).all (fun j => match e.pattern[j]? with | some c => c != '1' | none => false) &&
+    (List.range 16).all (fun j => match e.pattern[j]? with | some c => isBin c || (W.flatten.map Prod.fst).contains j | none => false)
+  | _, _ => false
+
+/-- every entry of the regenerated table: each stub writes value bit `i` to template position
+`15 - shift - i` of its field, the fields are disjoint, hold no fixed `1`, and cover every
+non-digit symbol of the template -/
+theorem wiring_ok_all : Gen.opcodes.all wiringOk = true := by decide +kernel
+
+/-! ### the theorem -/
+
+theorem bitOf_base (c : Char) : bitOf (if c = '1' then '1' else '0') = bitOf c := by
+  by_cases h : c = '1' <;> simp [bitOf, h]
+
+theorem digitsVal_basePattern (p : List Char) : digitsVal (basePattern p) = digitsVal p := by
+  unfold digitsVal basePattern
+  rw [List.foldl_map]
+  simp [bitOf_base]
+
+theorem basePattern_bin (p : List Char) : (basePattern p).all isBin = true := by
+  simp only [basePattern, List.all_map, List.all_eq_true]
+  intro c _
+  by_cases h : c = '1' <;> simp [isBin, h]
+
+theorem layout_base (e : InsnG) (base : Nat) (slots : List Slot) (h : layoutOf e = some (base, slots)) :
+    base = digitsVal e.pattern := by
+  unfold layoutOf at h
+  cases hs : e.stubs.mapM (stubSlot e.pattern) with
+  | none => simp [hs] at h
+  | some sl =>
+    rw [binValue_of_bin _ (basePattern_bin e.pattern)] at h
+    simp only [hs, Option.bind_eq_bind, Option.bind_some, digitsVal_basePattern] at h
+    by_cases h16 : e.pattern.length = 16
+    · simp [h16] at h; exact h.1.symm
+    · simp [h16] at h
+
+theorem mapM_length {α β : Type} (f : α → Option β) (l : List α) (r : List β) (h : l.mapM f = some r) : r.length = l.length := by
+  induction l generalizing r with
+  | nil => simp at h; subst h; rfl
+  | cons a t ih =>
+    simp only [List.mapM_cons] at h
+    cases hf : f a with
+    | none => simp [hf] at h
+    | some b =>
+      cases ht : t.mapM f with
+      | none => simp [hf, ht] at h
+      | some r' =>
+        simp [hf, ht] at h
+        subst h
+        simp [ih r' ht]
+
+/-- **`get_opcode` is arithmetic.** For an entry whose wiring is as checked (`wiring_ok_all`: every
+entry of the table) and *any* operand values, the word read from the substituted template is the
+base opcode plus each value's low `width` bits at the field's `shift`. -/
+theorem getOpcode_numeric (e : InsnG) (h : wiringOk e = true) (vs : List Int) (hlen : vs.length = e.stubs.length) :
+    ∃ base slots, layoutOf e = some (base, slots) ∧
+      getOpcode e.pattern (e.stubs.zip vs) = some (base + fieldSum slots vs) := by
+  unfold wiringOk at h
+  cases hW : e.stubs.mapM (stubPositions e.pattern) with
+  | none => simp [hW] at h
+  | some W =>
+    cases hL : layoutOf e with
+    | none => simp [hW, hL] at h
+    | some bl =>
+      obtain ⟨base, slots⟩ := bl
+      simp only [hW, hL, Bool.and_eq_true, beq_iff_eq, decide_eq_true_eq, List.all_eq_true] at h
+      obtain ⟨⟨⟨⟨⟨h16, hWeq⟩, hfit⟩, hnd⟩, h0⟩, hcov⟩ := h
+      refine ⟨base, slots, rfl, ?_⟩
+      have hWlen : W.length = e.stubs.length := mapM_length _ _ _ hW
+      have hslen : slots.length = e.stubs.length := by rw [← hWlen, hWeq]; simp
+      -- the writes
+      have hfun : (fun (x : StubG × Int) => match x with | (s, v) => stubWrites e.pattern s v) = fun x => stubWrites e.pattern x.1 x.2 := by
+        funext x; obtain ⟨s, v⟩ := x; rfl
+      have hws := writes_of_positions e.pattern e.stubs W vs hW hlen
+      unfold getOpcode
+      simp only [hfun, hws, Option.bind_eq_bind, Option.bind_some]
+      -- positions of the flattened writes
+      have hpos := chargeAll_positions W vs (by omega)
+      -- all symbols binary afterwards
+      have hbin : (applyWrites e.pattern (chargeAll W vs).flatten).all isBin = true := by
+        apply all_bin_applyWrites _ _ (chargeAll_bin W vs)
+        intro j x hx
+        rw [hpos]
+        have hj : j < 16 := by
+          have := List.getElem?_eq_some_iff.mp hx
+          obtain ⟨hlt, _⟩ := this
+          omega
+        have := hcov j (by simp [hj])
+        rw [hx] at this
+        simp only [Bool.or_eq_true] at this
+        rcases this with h1 | h1
+        · left; exact h1
+        · right; simpa using h1
+      rw [binValue_of_bin _ hbin]
+      -- the value
+      have hval := digitsVal_applyWrites e.pattern (chargeAll W vs).flatten (by rw [hpos]; exact hnd)
+        (by
+          intro w hw
+          have : w.1 ∈ (chargeAll W vs).flatten.map Prod.fst := List.mem_map_of_mem (f := Prod.fst) hw
+          rw [hpos] at this
+          have := h0 w.1 this
+          cases hp : e.pattern[w.1]? with
+          | none => simp [hp] at this
+          | some c => exact (List.getElem?_eq_some_iff.mp hp).1)
+        (by
+          intro w hw x hx
+          have : w.1 ∈ (chargeAll W vs).flatten.map Prod.fst := List.mem_map_of_mem (f := Prod.fst) hw
+          rw [hpos] at this
+          have := h0 w.1 this
+          rw [hx] at this
+          simp only [bne_iff_ne, ne_eq] at this
+          simp [bitOf, this])
+      rw [hval, ← layout_base e base slots hL, h16, hWeq,
+        writesVal_all slots vs (by omega) (fun sl hs => by simpa using hfit sl hs)]
+
+/-! ### … and it is the ISA's encoding -/
+
+open Pdpy11.Spec.Isa in
+/-- the ISA's encoding of an instruction: base opcode plus every operand field's value (its low
+`width` bits) at the field's position -/
+def specFieldSum : List Field → List Int → Nat
+  | f :: fs, v :: vs => lowBits v f.width * 2 ^ f.shift + specFieldSum fs vs
+  | _, _ => 0
+
+open Pdpy11.Spec.Isa in
+theorem fieldSum_eq_spec (slots : List Slot) (fs : List Field) (vs : List Int) (hl : slots.length = fs.length)
+    (hm : (slots.zip fs).all (fun x => kindMatches x.1 x.2) = true) : fieldSum slots vs = specFieldSum fs vs := by
+  induction slots generalizing fs vs with
+  | nil => cases fs <;> cases vs <;> simp [fieldSum, specFieldSum] at *
+  | cons sl ss ih =>
+    cases fs with
+    | nil => simp at hl
+    | cons f fs =>
+      cases vs with
+      | nil => simp [fieldSum, specFieldSum]
+      | cons v vs =>
+        simp only [List.zip_cons_cons, List.all_cons, Bool.and_eq_true] at hm
+        have hk := hm.1
+        simp only [kindMatches, Bool.and_eq_true, beq_iff_eq] at hk
+        simp only [fieldSum, specFieldSum]
+        rw [ih fs vs (by simpa using hl) hm.2, hk.1.1, hk.1.2]
+
+open Pdpy11.Spec.Isa in
+/-- **Machine-code fidelity of the opcode word, for all operand values.** For every mnemonic of
+the regenerated table (with its hint into the ISA table) and any values of its operand fields, the
+word `get_opcode` produces is the base opcode the independent ISA table gives for that mnemonic
+(synonyms and convenience mnemonics through the instruction they stand for) plus each value's low
+`width` bits at the ISA's field position, in the ISA's operand order. -/
+theorem opcode_word_is_isa_encoding (e : InsnG) (hint : Nat × Nat × Nat)
+    (hmem : (e, hint) ∈ Gen.opcodes.zip Gen.specHints) (vs : List Int) (hlen : vs.length = e.stubs.length) :
+    ∃ b fs, specVia e.name hint = some (b, fs) ∧ fs.length = e.stubs.length ∧
+      getOpcode e.pattern (e.stubs.zip vs) = some (b + specFieldSum fs vs) := by
+  have hm := (List.all_eq_true.mp table_matches_isa) (e, hint) hmem
+  have he : e ∈ Gen.opcodes := (List.of_mem_zip hmem).1
+  have hw := (List.all_eq_true.mp wiring_ok_all) e he
+  obtain ⟨base, slots, hL, hG⟩ := getOpcode_numeric e hw vs hlen
+  simp only [entryMatches, hL] at hm
+  cases hs : specVia e.name hint with
+  | none => simp [hs] at hm
+  | some bf =>
+    obtain ⟨b, fs⟩ := bf
+    simp only [hs, Bool.and_eq_true, beq_iff_eq] at hm
+    obtain ⟨⟨hb, hl⟩, hk⟩ := hm
+    -- the number of fields is the number of stubs
+    have hslots : slots.length = e.stubs.length := by
+      unfold layoutOf at hL
+      cases hsl : e.stubs.mapM (stubSlot e.pattern) with
+      | none => simp [hsl] at hL
+      | some sl =>
+        have := mapM_length _ _ _ hsl
+        cases hbv : binValue (basePattern e.pattern) with
+        | none => simp [hsl, hbv] at hL
+        | some bv =>
+          by_cases h16 : e.pattern.length = 16
+          · simp [hsl, hbv, h16] at hL; rw [← hL.2]; exact this
+          · simp [hsl, hbv, h16] at hL
+    refine ⟨b, fs, rfl, by omega, ?_⟩
+    rw [hG, hb, fieldSum_eq_spec slots fs vs hl hk]
+
 
 end Pdpy11.Props.C01
